@@ -110,7 +110,9 @@ def cases(tier, rng):
         if c:
             yield "all-forms", c
     for _ in range(1500 if thorough else 200):
-        c = exprprop.make_case(rng, depth=2, features=exprprop.ALL_FEATURES, a_repr={"maxlist": 2, "maxstring": 8, "maxother": 8, "maxlevel": 2})
+        kind = rng.choice(["require", "ensure", "invariant"])
+        feats = exprprop.ALL_FEATURES if kind != "invariant" else dict(exprprop.ALL_FEATURES, walrus=False)
+        c = exprprop.make_case(rng, depth=2, features=feats, kind=kind, a_repr={"maxlist": 2, "maxstring": 8, "maxother": 8, "maxlevel": 2})
         if c:
             yield "custom-repr", c
 
